@@ -14,15 +14,13 @@ fields("xandikos.store.git.GitStore", {
 })
 
 
+def uid_ok(f):
+    return uid_outcome(f) != 1 and uid_outcome(f) != 2 and uid_outcome(f) != 3
+
+
 def stored_uid(self, name, etag):
     f = file_of(blob_of(etag.encode("ascii")).chunked, name, self.extra_file_handlers)
-    return uid_val(f) if uid_outcome(f) == 0 else None
-
-
-def uid_outcomes_ok(self):
-    return forall("str", "str", lambda n, e: uid_outcome(
-        file_of(blob_of(e.encode("ascii")).chunked, n, self.extra_file_handlers)) >= 0 and uid_outcome(
-        file_of(blob_of(e.encode("ascii")).chunked, n, self.extra_file_handlers)) <= 3)
+    return uid_val(f) if uid_ok(f) else None
 
 
 def cache_consistent(self, F, U):
@@ -63,8 +61,7 @@ def store_inv(self):
     return (cache_consistent(self, self._fname_to_uid, self._uid_to_fname)
             and no_cross_uid(self, self._fname_to_uid, self.ghost_M)
             and uids_unique(self, self.ghost_M)
-            and members_in_store(self, self.ghost_M)
-            and uid_outcomes_ok(self))
+            and members_in_store(self, self.ghost_M))
 
 
 @contract("xandikos.store.git.GitStore._iterblobs",
